@@ -99,7 +99,7 @@ func checkMapRanges(r *Run, cg *CallGraph, reach map[*types.Func]*cgEdge) {
 			v := classifyMapRange(p, cg, fd, rs)
 			if v.ok {
 				r.Pass("C05-R1-map-order", construct, rs.Pos(), "%s", v.reason)
-			} else if reason, inTbl := r.InTable(tbl, "c05_map_ranges", shortPkg(p.PkgPath)+"."+funcDeclName(fd)+":"+lastNameOf(rs.X)); inTbl {
+			} else if reason, inTbl := r.InTableAt(tbl, "c05_map_ranges", shortPkg(p.PkgPath)+"."+funcDeclName(fd)+":"+lastNameOf(rs.X), p.TypesInfo, fd, "range#"+itoa(n)); inTbl {
 				r.Pass("C05-R1-map-order", construct, rs.Pos(), "table: %s", reason)
 			} else {
 				r.Fail("C05-R1-map-order", construct, rs.Pos(), "iteration over a Go map whose body is order-sensitive (%s): repeated translation of the same query can emit different SQL or parameters", v.reason)
